@@ -1086,7 +1086,8 @@ def run_maps(ctx, rng, base):
     cases = []
     for k in range(ctx.n(60, 1500)):
         desc = repeat_inputs(mapgen.gen_case(rng, max_funcs=3, kinds=["elem", "elem", "outer", "partial", "full", "scalar"],
-                                              p_bound=0.1 if k % 2 else 0.6, p_default=0.6 if k % 2 == 1 else 0.15), rng)
+                                              p_bound=0.1 if k % 2 else 0.6, p_default=0.6 if k % 2 == 1 else 0.15,
+                                              p_whole=0.5), rng)     # whole upstream arrays as parameters of mapped functions (key built from the LOADED array: C09-s4-B)
         if rng.random() < 0.4:
             desc = rich_map_inputs(desc, rng)
         r = rng.random()
